@@ -57,6 +57,8 @@ class RealizationsConfig(ImmutableBaseModel):
 
     @model_validator(mode="after")
     def _broadcast_normalize_and_check(self) -> Self:
+        if self._is_validated():
+            return self
         self._mutable()
         self.weights = normalize(self.weights)
         if (
